@@ -549,3 +549,36 @@ func TestC01_R_AsBytesOfLargeFiles(t *testing.T) {
 		}
 	}
 }
+
+// Whole values of several files kept side by side: the bytes AsBytes returned for one file stay that file's bytes while
+// other files are read (through the same link system, on the same goroutine).
+func TestC01_R_WholeValuesKeptSideBySide(t *testing.T) {
+	st := NewStore()
+	type kept struct {
+		want, got []byte
+	}
+	var all []kept
+	for round := 0; round < 6; round++ {
+		for i, n := range []int{300, 300, 5000, 5000, 70000, 64, 2<<20 + 5} {
+			data := lcgBytes(n, byte(round*16+i+1), 0)
+			root, _, err := buildFile(st, data, []string{"size-16", "size-1000", "size-65536"}[i%3], 3+i%5)
+			if err != nil {
+				t.Fatal(err)
+			}
+			rn, err := c01Open(st, root, []string{"Reify", "unixfs-preload", "NewUnixFSFile"}[(round+i)%3])
+			if err != nil {
+				t.Fatal(err)
+			}
+			b, err := rn.AsBytes()
+			if err != nil || !bytes.Equal(b, data) {
+				t.Fatalf("C01: AsBytes of a %d-byte file: %d bytes, %v", n, len(b), err)
+			}
+			all = append(all, kept{data, b})
+			for k, e := range all {
+				if !bytes.Equal(e.got, e.want) {
+					t.Fatalf("C01: the %d bytes AsBytes returned for file #%d changed after %d more files were read: first difference at %d", len(e.want), k+1, len(all)-1-k, firstDiff(e.got, e.want))
+				}
+			}
+		}
+	}
+}
